@@ -24,7 +24,8 @@ fn run(ctx: &Ctx) {
          judged against an independent reference factorisation; proptest-generated composites of 14 shapes (prime, balanced / \
          unbalanced semiprime, p^k, (pq)^2, p^2 q, many primes, consecutive primes, p(2p-1), Carmichael, factor inside the factor \
          base, three primes, tiny factors times semiprime) within each selector's size precondition and time budget, plus inputs \
-         beyond the working range of Ecm128 / Pm1 / Ecm (lists with composite entries, declared failures), with generated \
+         beyond the working range of Ecm128 / Pm1 / Ecm (lists with composite entries, declared failures) and integers with \
+         all-zero / all-ones interior words or of the form 2^e +- d (factorisation unknown, Pm1 and Auto), with generated \
          preferences (threads, factor-base size 0.5x..3x default, interval size, large-prime multiplier, double-large-prime switch, verbosity level). \
          Non-trivial = at least two prime factors above 199 (a real algorithm ran); distinct by (selector, n, prefs).",
     );
@@ -84,8 +85,42 @@ fn run(ctx: &Ctx) {
                 cases.push(mk_case("beyond:ecm-small-x-hard", vec![pr(22 + j % 10), pr(72 + j % 6), pr(73 + j % 6)], "ecm", PrefSpec::default()));
             }
         }
+        // integers with special word patterns (factorisation unknown: only the list predicate is judged): all-zero
+        // or all-ones interior 64-bit words, single bits, 2^k +- small.  Products of random primes never have
+        // them, and the multiword division / reduction routines behind the trial-division loop and the factor-base
+        // set-up treat such words specially.
+        {
+            use crate::oracle::int::U1024;
+            let one = U1024::ONE;
+            let mut sp: Vec<(U1024, &str)> = vec![];
+            for j in 0..ctx.n(60, 2000) {
+                let a = (r.next() >> (r.below(60) as u32)) | 1;
+                let b = (r.next() >> (r.below(60) as u32)) | 1;
+                let k = 2 + (j % 2) as u32;
+                // a * 2^(64k) + b: k-1 zero interior words (k = 2: 129..192 bits, k = 3: 193..256 bits)
+                sp.push(((U1024::from(a) << (64 * k)) | U1024::from(b), "words:zero-interior"));
+                // all-ones interior words
+                let ones = ((one << (64 * (k - 1))) - one) << 64u32;
+                sp.push(((U1024::from(a) << (64 * k)) | ones | U1024::from(b), "words:ones-interior"));
+                // 2^e +- small odd
+                let e = 65 + r.below(190) as u32;
+                let d = U1024::from(1 + 2 * r.below(500));
+                sp.push(((one << e) + d, "words:2^e+d"));
+                sp.push(((one << e) - d, "words:2^e-d"));
+            }
+            for (n, shape) in sp {
+                // P-1 alone gives up quickly at every size; the automatic strategy only where a full sieve run is cheap
+                cases.push(FCase { n, factors: vec![], shape: shape.to_string(), algo: "pm1".into(), prefs: PrefSpec::default() });
+                if n.bits() <= 150 {
+                    cases.push(FCase { n, factors: vec![], shape: shape.to_string(), algo: "auto".into(), prefs: PrefSpec::default() });
+                }
+            }
+        }
         let outs = run_batch(ctx, check, "opt", &cases, timeout, &judge_c01, &mut l);
         for (c, o) in cases.iter().zip(outs.iter()) {
+            if c.factors.is_empty() {
+                continue;
+            }
             match o {
                 Outcome::Ok(fs) if *fs != c.factors => l.label("beyond-range:ok-with-composite-entry"),
                 Outcome::Ok(_) => l.label("beyond-range:ok-complete"),
@@ -104,6 +139,7 @@ fn run(ctx: &Ctx) {
     ctx.essential("shape:prime-power", 10);
     ctx.essential("shape:square-of-composite", 10);
     ctx.essential("beyond-range:ok-with-composite-entry", 10);
+    ctx.essential("shape:words:zero-interior", 50);
 }
 
 fn replay(_ctx: &Ctx, check: &str, case: &Value) -> Result<(), Fail> {
